@@ -11,6 +11,12 @@
 #include <glm/ext/vector_common.hpp>
 #include <glm/ext/scalar_ulp.hpp>
 #include <glm/gtx/common.hpp>
+#include <glm/gtx/norm.hpp>
+#include <glm/gtx/fast_square_root.hpp>
+#include <glm/gtx/fast_exponential.hpp>
+#include <glm/gtx/log_base.hpp>
+#include <glm/gtx/optimum_pow.hpp>
+#include <glm/gtx/integer.hpp>
 #include <string.h>
 
 #if defined(__GNUC__)
@@ -63,6 +69,14 @@ B2(vec_fmin, glm::fmin(glm::vec<3, T, glm::defaultp>(x, y, x), glm::vec<3, T, gl
 B2(vec_min, glm::min(glm::vec<4, T, glm::defaultp>(x, y, x, y), y).x)
 B2(epsilonEqual, (T)(glm::epsilonEqual(x, y, glm::abs(x) * T(0.0009765625)) ? 1 : 0))
 template <class T> static T f_ldexp_frexp(T x, T y) { int e = 77; T m = glm::frexp(x, e); (void)y; return glm::ldexp(m, e) + (T)e; }
+B2(lxNorm3, glm::lxNorm(glm::vec<3, T, glm::defaultp>(x, y, x - y), 3u))
+B2(lxNorm5, glm::lxNorm(glm::vec<3, T, glm::defaultp>(x, y, x + y), glm::vec<3, T, glm::defaultp>(y, x, T(0.25)), 5u))
+B2(l1Norm, glm::l1Norm(glm::vec<3, T, glm::defaultp>(x, y, x * y)))
+B2(l2Norm, glm::l2Norm(glm::vec<3, T, glm::defaultp>(x, y, x - y), glm::vec<3, T, glm::defaultp>(y, x, T(1))))
+B2(distance2, glm::distance2(glm::vec<2, T, glm::defaultp>(x, y), glm::vec<2, T, glm::defaultp>(y, T(2))))
+U1(pow3, glm::pow3(x))
+U1(pow4, glm::pow4(x))
+B2(logbase, glm::log(glm::abs(x) + T(1.5), glm::abs(y) + T(2)))
 #undef U1
 #undef B2
 
@@ -75,7 +89,7 @@ template <class T> struct Table {
 			E(round, 1), E(roundEven, 1), E(trunc, 1), E(floor, 1), E(ceil, 1), E(fract, 5), E(sign, 1), E(abs, 0), E(exp2, 5), E(log2, 2), E(sqrt, 2), E(inversesqrt, 2),
 			E(asinh, 5), E(acosh, 4), E(atanh, 3), E(isnan, 0), E(isinf, 0), E(isdenormal, 0), E(nextFloat, 1), E(prevFloat, 1), E(next_float, 1), E(prev_float, 1),
 			EV(vec_round, "round.vec4", 5), EV(vec_roundEven, "roundEven.vec3", 5), EV(vec_trunc, "trunc.vec2", 1), E(min, 1), E(max, 1), E(fmin, 0), E(fmax, 0), E(fclamp, 1), E(mod, 6), E(mix, 5), E(fma, 5), E(step, 1),
-			E(smoothstep, 5), E(pow, 5), EV(vec_fmin, "fmin.vec3", 0), EV(vec_min, "min.vec4", 1), E(epsilonEqual, 5), E(ldexp_frexp, 5),
+			E(smoothstep, 5), E(pow, 5), EV(vec_fmin, "fmin.vec3", 0), EV(vec_min, "min.vec4", 1), E(epsilonEqual, 5), E(ldexp_frexp, 5), E(lxNorm3, 5), E(lxNorm5, 5), E(l1Norm, 5), E(l2Norm, 5), E(distance2, 5), E(pow3, 5), E(pow4, 5), E(logbase, 5),
 		};
 		*n = (int)(sizeof(t) / sizeof(t[0]));
 		return t;
